@@ -20,6 +20,12 @@ pub fn ref_allele(i: usize) -> String {
 pub fn vcf_text(cs: &CallSet) -> Vec<u8> {
     let mut s = String::new();
     s.push_str("##fileformat=VCFv4.3\n");
+    if cs.extras {
+        // header lines real tools add: provenance, reference, filters, symbolic alleles, command lines
+        s.push_str("##fileDate=20240917\n##source=harness\n##reference=file:///ref/genome.fa\n");
+        s.push_str("##FILTER=<ID=q10,Description=\"Quality below 10\">\n##FILTER=<ID=s50,Description=\"Less than 50% of samples have data\">\n");
+        s.push_str("##ALT=<ID=DEL,Description=\"Deletion\">\n##bcftools_viewCommand=view -Oz -o calls.vcf.gz in.bcf; Date=Tue Sep 17 10:00:00 2024\n");
+    }
     let mut contigs: Vec<&str> = Vec::new();
     for r in &cs.recs { if !contigs.contains(&r.contig.as_str()) { contigs.push(&r.contig); } }
     if contigs.is_empty() { contigs.push("1"); }
@@ -30,6 +36,8 @@ pub fn vcf_text(cs: &CallSet) -> Vec<u8> {
     if cs.extras {
         s.push_str("##INFO=<ID=DP,Number=1,Type=Integer,Description=\"Depth\">\n");
         s.push_str("##INFO=<ID=AF,Number=A,Type=Float,Description=\"Frequency\">\n");
+        s.push_str("##INFO=<ID=AC,Number=A,Type=Integer,Description=\"Allele count in genotypes\">\n");
+        s.push_str("##INFO=<ID=AN,Number=1,Type=Integer,Description=\"Total number of alleles in called genotypes\">\n");
         s.push_str("##FORMAT=<ID=DP,Number=1,Type=Integer,Description=\"Depth\">\n");
         s.push_str("##FORMAT=<ID=GQ,Number=1,Type=Integer,Description=\"Quality\">\n");
     }
@@ -40,15 +48,23 @@ pub fn vcf_text(cs: &CallSet) -> Vec<u8> {
         let ma = max_allele(&r.gts);
         let alts = ["C", "G", "T", "CA", "CAA", "CAAA", "CT", "CTT", "CTTT", "CG", "CGG", "CGGG"];
         let alt = if ma == 0 && i % 3 == 0 { ".".to_string() } else { alts[..ma.max(1).min(alts.len())].join(",") };
-        let info = if cs.extras { if ma <= 1 { "DP=17;AF=0.25".to_string() } else { "DP=17".to_string() } } else { ".".to_string() };
-        let fmt = if cs.extras { "GT:DP:GQ" } else { "GT" };
+        // INFO carries summary fields as real call sets do; AC / AN are present on single-ALT records and are NOT kept in step with
+        // the genotypes (stale after filtering / masking): nothing but the GT columns may decide a site
+        let info = if cs.extras {
+            if ma <= 1 && alt != "." { format!("AC={};AN={};DP=17;AF=0.25", (i * 3 + 1) % (2 * cs.cols.len() + 1), 2 * cs.cols.len()) } else { "DP=17".to_string() }
+        } else { ".".to_string() };
+        // a record whose samples all read `@` has no GT key at all (FORMAT DP only): every sample is missing
+        let nogt = !r.gts.is_empty() && r.gts.iter().all(|g| g == "@");
+        let fmt = if nogt { "DP" } else if cs.extras { "GT:DP:GQ" } else { "GT" };
         match r.corrupt.as_deref() {
             Some("badpos") => { s.push_str(&format!("{}\tx{}\t.\t{}\t{}\t.\t.\t{}\t{}", r.contig, r.pos, ref_allele(i), alt, info, fmt)); }
             Some("trunc") => { s.push_str(&format!("{}\t{}\t.\tA\n", r.contig, r.pos)); continue; }
             _ => { s.push_str(&format!("{}\t{}\t.\t{}\t{}\t.\t.\t{}\t{}", r.contig, r.pos, ref_allele(i), alt, info, fmt)); }
         }
         for (j, g) in r.gts.iter().enumerate() {
-            s.push('\t'); s.push_str(g);
+            s.push('\t');
+            if nogt { s.push_str(&format!("{}", 3 + (i + j) % 20)); continue; }
+            s.push_str(g);
             if cs.extras { s.push_str(&format!(":{}:{}", 3 + (i + j) % 20, 10 + (i * 7 + j) % 80)); }
         }
         s.push('\n');
@@ -82,6 +98,30 @@ pub fn bgzf_block(payload: &[u8]) -> Vec<u8> {
 }
 
 /// BGZF with caller-chosen cut points (sorted, each < 60000 apart is the caller's job), optional empty blocks, EOF block
+/// how a BGZF stream ends: the canonical empty block, no marker at all (legal: the marker is a convention), or an empty block in
+/// another valid encoding (a stored DEFLATE block)
+#[derive(Clone, Copy, PartialEq)]
+pub enum BgzfEnd { Marker, None, StoredEmpty }
+
+pub fn bgzf_stored_empty_block() -> Vec<u8> {
+    use flate2::Crc;
+    let cdata = [0x01u8, 0x00, 0x00, 0xff, 0xff];
+    let crc = Crc::new();
+    let mut b = vec![0x1f, 0x8b, 8, 4, 0, 0, 0, 0, 0, 0xff, 6, 0, b'B', b'C', 2, 0];
+    b.extend(((cdata.len() + 25) as u16).to_le_bytes()); b.extend(cdata); b.extend(crc.sum().to_le_bytes()); b.extend(0u32.to_le_bytes());
+    b
+}
+
+pub fn bgzf_end(data: &[u8], cuts: &[usize], empties: bool, end: BgzfEnd) -> Vec<u8> {
+    let mut out = bgzf(data, cuts, empties);
+    let marker = bgzf_block(&[]);
+    if end != BgzfEnd::Marker && out.ends_with(&marker) {
+        out.truncate(out.len() - marker.len());
+        if end == BgzfEnd::StoredEmpty { out.extend(bgzf_stored_empty_block()); }
+    }
+    out
+}
+
 pub fn bgzf(data: &[u8], cuts: &[usize], empties: bool) -> Vec<u8> {
     let mut out = vec![]; let mut s = 0;
     let mut pts: Vec<usize> = cuts.iter().copied().filter(|c| *c > 0 && *c < data.len()).collect();
@@ -132,7 +172,7 @@ fn gt_bytes(gt: &str) -> Option<Vec<u8>> {
 }
 
 pub fn raw_bcf_simple(cs: &CallSet) -> Option<Vec<u8>> {
-    if cs.recs.iter().any(|r| r.corrupt.is_some()) { return None; }
+    if cs.recs.iter().any(|r| r.corrupt.is_some() || r.gts.iter().any(|g| g == "@")) { return None; }
     let mut contigs: Vec<&str> = Vec::new();
     for r in &cs.recs { if !contigs.contains(&r.contig.as_str()) { contigs.push(&r.contig); } }
     if contigs.is_empty() { contigs.push("1"); }
